@@ -80,6 +80,9 @@ def body_wire(b, rng=None):
         v = b[1] if len(b) > 1 else 0
         return [b'x\x1e4a', '\x1e'.join(['4a'] * 17).encode(), b'4a\x1e\x1e4b', b'bQ', b'\x1e',
                 ('d=' + urllib.parse.quote('\x1e'.join(['4a'] * 17))).encode()][v % 6], None     # 17 packets, plain and form-encoded: one more than a body may carry
+    if len(b) > 1 and b[1] == 1:
+        # too long in bytes although not in characters: two-byte characters, limit + 3 bytes, about half as many characters
+        return ('4' + '\u00e9' * (MAXBUF // 2 + 1)).encode('utf-8'), None
     return b'4' + b'z' * MAXBUF, None          # too long: declared = actual = limit + 1
 
 
@@ -600,7 +603,7 @@ def gen_history(rng, cfg, length=25, weights=None, max_sessions=4, allow_disc_ha
             elif r < 0.92:
                 body = ('undec', rng.randrange(6))
             else:
-                body = ('toolong',)
+                body = ('toolong', rng.randrange(2))
             ops.append(('post', pick_session(), body))
         elif k == 'upgrade':
             s = pick_session()
